@@ -69,6 +69,7 @@ type Obligation struct {
 	Solver  string
 	Time    float64
 	Model   map[string]string
+	AltModels []map[string]string
 	Output  string
 	File    string
 	Info    map[string]*Term // values worth printing from a model
